@@ -1,2 +1,3 @@
 pub mod bytes;
 pub mod xorb;
+pub mod shard;
